@@ -2,6 +2,9 @@ import Comdex.Lemmas.DutchPrice
 import Comdex.Lemmas.DutchV2
 import Comdex.Lemmas.DutchV1
 import Comdex.Lemmas.DutchV1Lend
+import Comdex.Lemmas.DutchV1LendBook
+import Comdex.Lemmas.DutchV2W
+import Comdex.Lemmas.DutchBand
 /-!
 # C10 — Dutch auctions settle completely and sell at the posted, falling price
 
@@ -33,8 +36,20 @@ the bid-path theorems are the `v1_…` theorems at the end; they hold without ex
                                                                         the amount the bidder asked to pay, no slack)
 * "when the auction ends the proceeds are fully distributed …"        → `close_proceeds_distributed` (burn + collector +
                                                                         keeper + initiator + pool + booked fees = target,
-                                                                        unsold collateral to the owner)
-* "… and no unaccounted remainder stays in auction custody"           → `close_custody_accounted` (identity with the explicit
+                                                                        unsold collateral to the owner); one theorem per
+                                                                        distribution branch of the close path, each with
+                                                                        "no unaccounted remainder stays in custody":
+                                                                        `vault_close_distributes` (bid.go:89-101,161-190),
+                                                                        `external_close_distributes` (bid.go:122-158),
+                                                                        `lend_close_distributes` (bid.go:191-202 →
+                                                                        liquidate.go:722-813, + `lend_close_split`)
+* the band in EVERY reachable state, emergency shutdown included       → `price_in_band_every_reachable_state` (+ what the shutdown
+                                                                        iterator does per initiator kind:
+                                                                        `esm_leaves_nonvault_auction_untouched_past_end`,
+                                                                        `trigger_esm_moves`, `esm_trigger_repeats_counterexample`)
+* "… and no unaccounted remainder stays in auction custody"           → `debt_custody_every_history` (every history, D7 / D23 / D24
+                                                                        included: the remainder is exactly `paid + need − target`),
+                                                                        `close_custody_accounted` (identity with the explicit
                                                                         shortfall term), `close_distributes_all_partial`
                                                                         (exact when no reserve shortfall happened),
                                                                         `close_distributes_all_counterexample`
@@ -176,7 +191,7 @@ sequence of market bids (any bidders, any amounts), price updates / restarts wit
 deposits and limit-bid fills with at most one limit bid per premium bucket.  `_partial`: with two limit bids in one
 bucket the statement is false of the code (`bidders_pay_le_target_counterexample`). -/
 theorem bidders_pay_le_target_partial (e : Env) (hw : WfEnv e) (a : Auc) (b : Bank) (r : Option Int) (hs : Start e a)
-    (ops : List Op) (hops : ∀ op ∈ ops, WfOp op) :
+    (ops : List Op) (hops : ∀ op ∈ ops, WfOp e op) :
     0 ≤ (run e (initSt e a b r) ops).paid ∧ (run e (initSt e a b r) ops).paid ≤ e.target := by
   have hi := run_inv hw ops _ (init_inv e a b r hs) hops
   refine ⟨hi.paid_nonneg, ?_⟩
@@ -188,7 +203,7 @@ theorem bidders_pay_le_target_partial (e : Env) (hw : WfEnv e) (a : Auc) (b : Ba
 
 /-- **bidders receive in total no more than the seized collateral** (same quantification) -/
 theorem bidders_receive_le_collateral_partial (e : Env) (hw : WfEnv e) (a : Auc) (b : Bank) (r : Option Int) (hs : Start e a)
-    (ops : List Op) (hops : ∀ op ∈ ops, WfOp op) :
+    (ops : List Op) (hops : ∀ op ∈ ops, WfOp e op) :
     0 ≤ (run e (initSt e a b r) ops).recv ∧ (run e (initSt e a b r) ops).recv ≤ e.coll0 := by
   have hi := run_inv hw ops _ (init_inv e a b r hs) hops
   refine ⟨hi.recv_nonneg, ?_⟩
@@ -200,7 +215,7 @@ theorem bidders_receive_le_collateral_partial (e : Env) (hw : WfEnv e) (a : Auc)
 
 /-- while the auction is open the books are exact: paid + remaining target = target, received + remaining collateral = seized -/
 theorem open_books_exact (e : Env) (hw : WfEnv e) (a : Auc) (b : Bank) (r : Option Int) (hs : Start e a)
-    (ops : List Op) (hops : ∀ op ∈ ops, WfOp op) (a' : Auc) (h : (run e (initSt e a b r) ops).auc = some a') :
+    (ops : List Op) (hops : ∀ op ∈ ops, WfOp e op) (a' : Auc) (h : (run e (initSt e a b r) ops).auc = some a') :
     (run e (initSt e a b r) ops).paid + a'.debt = e.target ∧ (run e (initSt e a b r) ops).recv + a'.coll = e.coll0 ∧
     0 ≤ a'.debt ∧ 0 ≤ a'.coll ∧ (0 : Int) ≤ a'.price := by
   have hi := run_inv hw ops _ (init_inv e a b r hs) hops
@@ -308,6 +323,85 @@ theorem close_proceeds_distributed (e : Env) (hw : WfEnv e) (s s' : St) (a : Auc
         rw [this] at hc; cases hc
     · cases h
 
+/-- **vault-initiated close, branch `bid.go:89-101,161-190`** — the closing bid burns `target − penalty`, pays the keeper of a
+keeper-initiated liquidation `⌊incentive·penalty⌋`, sends the rest of the penalty to the collector (and adds it to the collector's
+net-fee record), moves nothing to initiator / pool / lend reserve, books nothing — **and no unaccounted remainder stays in
+custody**: afterwards the module account holds exactly the collateral that is not this auction's, and of the debt denomination
+exactly what is not this auction's plus the booked fees (minus reserve draws that were silently skipped, `short`). -/
+theorem vault_close_distributes (e : Env) (hw : WfEnv e) (hk : e.kind = .vault) (s s' : St) (who : Nat) (amt dt : Int)
+    (hi : Inv e s) (hdt : 0 ≤ dt) (h : bidE e s who amt dt = .ok s') (hc : s'.auc = none) :
+    s'.burned = s.burned + (e.target - e.fee) ∧
+    s'.bank.get .keeper .debt = s.bank.get .keeper .debt + cutOf e e.isKeeper ∧
+    s'.bank.get .collector .debt = s.bank.get .collector .debt + (e.fee - cutOf e e.isKeeper) ∧
+    s'.netFees = s.netFees + (e.fee - cutOf e e.isKeeper) ∧
+    0 ≤ cutOf e e.isKeeper ∧ cutOf e e.isKeeper ≤ e.fee ∧
+    s'.bank.get .initiator .debt = s.bank.get .initiator .debt ∧ s'.bank.get .pool .debt = s.bank.get .pool .debt ∧
+    s'.bank.get .lendres .debt = s.bank.get .lendres .debt ∧ s'.booked = s.booked ∧ s'.extFees = s.extFees ∧
+    s'.bank.get .auction .coll = s'.otherC ∧ s'.bank.get .auction .debt + s'.short = s'.otherD + s'.booked := by
+  obtain ⟨hinv, s2, s3, hd, e1, e2, e3, e4, e5, _, f1, f2, f3, f4, f5, _⟩ := bidE_close hw hi hdt h hc
+  obtain ⟨v1, v2, _, v4, v5, v6, v7, _, v9, v10, v11, v12, v13, _⟩ := distribute_vault hk hd
+  obtain ⟨_, _, c3, c4⟩ := hinv.closed hc
+  refine ⟨by rw [f1, v4, e1], ?_, ?_, by rw [f2, v7, e2], v1, v2, ?_, ?_, ?_, by rw [f4, v12, e4], by rw [f3, v13, e3], c3, c4⟩
+  · rw [f5 _ _ (by decide), v5, e5 _ _ (by decide) (by decide) (by simp)]
+  · rw [f5 _ _ (by decide), v6, e5 _ _ (by decide) (by decide) (by simp)]
+  · rw [f5 _ _ (by decide), v9, e5 _ _ (by decide) (by decide) (by simp)]
+  · rw [f5 _ _ (by decide), v10, e5 _ _ (by decide) (by decide) (by simp)]
+  · rw [f5 _ _ (by decide), v11, e5 _ _ (by decide) (by decide) (by simp)]
+
+/-- **externally initiated close, branch `bid.go:122-158`** — the closing bid returns the principal `target − penalty` to the
+external initiator; the penalty STAYS in the module account and is booked as the module's own fee data (`extFees`, ghost `booked`);
+an accepted close pays no keeper incentive (a non-zero incentive makes every closing bid fail: the transfer goes to the empty
+keeper address); nothing is burned, collector / pool / lend reserve get nothing — **and no unaccounted remainder stays in custody**:
+the debt denomination left in the module account is exactly what is not this auction's plus the booked fees. -/
+theorem external_close_distributes (e : Env) (hw : WfEnv e) (hk : e.kind = .external) (s s' : St) (who : Nat) (amt dt : Int)
+    (hi : Inv e s) (hdt : 0 ≤ dt) (h : bidE e s who amt dt = .ok s') (hc : s'.auc = none) :
+    s'.bank.get .initiator .debt = s.bank.get .initiator .debt + (e.target - e.fee) ∧
+    s'.booked = s.booked + e.fee ∧ s'.extFees = s.extFees + e.fee ∧ cutOf e true = 0 ∧
+    s'.burned = s.burned ∧ s'.netFees = s.netFees ∧
+    s'.bank.get .collector .debt = s.bank.get .collector .debt ∧ s'.bank.get .keeper .debt = s.bank.get .keeper .debt ∧
+    s'.bank.get .pool .debt = s.bank.get .pool .debt ∧ s'.bank.get .lendres .debt = s.bank.get .lendres .debt ∧
+    s'.bank.get .auction .coll = s'.otherC ∧ s'.bank.get .auction .debt + s'.short = s'.otherD + s'.booked := by
+  obtain ⟨hinv, s2, s3, hd, e1, e2, e3, e4, e5, _, f1, f2, f3, f4, f5, _⟩ := bidE_close hw hi hdt h hc
+  obtain ⟨x1, _, _, x4, _, x6, x7, x8, x9, x10, x11, x12, x13, _⟩ := distribute_external hk hd
+  obtain ⟨_, _, c3, c4⟩ := hinv.closed hc
+  refine ⟨?_, by rw [f4, x6, e4], by rw [f3, x7, e3], x1, by rw [f1, x8, e1], by rw [f2, x9, e2], ?_, ?_, ?_, ?_, c3, c4⟩
+  · rw [f5 _ _ (by decide), x4, e5 _ _ (by decide) (by decide) (by simp)]
+  · rw [f5 _ _ (by decide), x10, e5 _ _ (by decide) (by decide) (by simp)]
+  · rw [f5 _ _ (by decide), x11, e5 _ _ (by decide) (by decide) (by simp)]
+  · rw [f5 _ _ (by decide), x12, e5 _ _ (by decide) (by decide) (by simp)]
+  · rw [f5 _ _ (by decide), x13, e5 _ _ (by decide) (by decide) (by simp)]
+
+/-- **lend-initiated close, branch `bid.go:191-202` → `MsgCloseDutchAuctionForBorrow`** — the closing bid hands the whole target to
+the debt pool; from there the liquidation penalty and the reserve's share of the interest go to the lend reserve and the bridge
+asset of a cross-pool borrow returns to the collateral's pool (`lend_close_split`); nothing is burned, nothing booked, collector /
+keeper / initiator get nothing — **and no unaccounted remainder stays in custody**. -/
+theorem lend_close_distributes (e : Env) (hw : WfEnv e) (hk : e.kind = .lend) (s s' : St) (who : Nat) (amt dt : Int)
+    (hi : Inv e s) (hdt : 0 ≤ dt) (h : bidE e s who amt dt = .ok s') (hc : s'.auc = none) :
+    s'.bank.get .pool .debt = s.bank.get .pool .debt + e.target - e.lendPen - DutchV2.posPart e.lendInt ∧
+    s'.bank.get .lendres .debt = s.bank.get .lendres .debt + e.lendPen + DutchV2.posPart e.lendInt ∧
+    s'.bank.get .pool .transit = s.bank.get .pool .transit - DutchV2.posPart e.bridged ∧
+    s'.bank.get .poolIn .transit = s.bank.get .poolIn .transit + DutchV2.posPart e.bridged ∧
+    s'.burned = s.burned ∧ s'.netFees = s.netFees ∧ s'.extFees = s.extFees ∧ s'.booked = s.booked ∧
+    s'.bank.get .auction .coll = s'.otherC ∧ s'.bank.get .auction .debt + s'.short = s'.otherD + s'.booked := by
+  obtain ⟨hinv, s2, s3, hd, e1, e2, e3, e4, e5, _, f1, f2, f3, f4, f5, _⟩ := bidE_close hw hi hdt h hc
+  obtain ⟨_, l2, l3, l4, l5, _, _, l8, l9, l10⟩ := distribute_lend hk hd
+  obtain ⟨q1, q2, q3, q4, q5, q6, q7, _⟩ := distribute_ok hd
+  obtain ⟨_, _, c3, c4⟩ := hinv.closed hc
+  have hbk : s3.booked = s2.booked := by
+    -- the lend branch books nothing
+    unfold distribute at hd
+    split at hd
+    · cases hd
+    · rw [hk] at hd
+      simp only at hd
+      iterate 6 (all_goals (try (split at hd)))
+      all_goals (first | (cases hd; rfl) | cases hd)
+  refine ⟨?_, ?_, ?_, ?_, by rw [f1, l8, e1], by rw [f2, l9, e2], by rw [f3, l10, e3], by rw [f4, hbk, e4], c3, c4⟩
+  · rw [f5 _ _ (by decide), l2, e5 _ _ (by decide) (by decide) (by simp)]
+  · rw [f5 _ _ (by decide), l3, e5 _ _ (by decide) (by decide) (by simp)]
+  · rw [f5 _ _ (by decide), l4, e5 _ _ (by decide) (by decide) (by simp)]
+  · rw [f5 _ _ (by decide), l5, e5 _ _ (by decide) (by decide) (by simp)]
+
 /-- **second-generation lend close, the split** (`liquidate.go:721-813`): of the target handed over by the auction module the
 debt pool keeps `target − penalty − reserve interest`, the lend reserve receives `penalty + reserve interest`, the bridge asset of a
 cross-pool borrow returns to the pool the collateral was lent to; no collateral moves, nothing is burned, no fee is booked. -/
@@ -326,7 +420,7 @@ module account holds, of the collateral, exactly what does not belong to this au
 does not belong to it plus the penalty an external auction books as module fees — MINUS every reserve draw that was
 needed but silently skipped (`short`, written only at `liquidate.go:611-617` when the reserve record is too small). -/
 theorem close_custody_accounted (e : Env) (hw : WfEnv e) (a : Auc) (b : Bank) (r : Option Int) (hs : Start e a)
-    (ops : List Op) (hops : ∀ op ∈ ops, WfOp op) (hc : (run e (initSt e a b r) ops).auc = none) :
+    (ops : List Op) (hops : ∀ op ∈ ops, WfOp e op) (hc : (run e (initSt e a b r) ops).auc = none) :
     let s := run e (initSt e a b r) ops
     s.bank.get .auction .coll = s.otherC ∧ s.bank.get .auction .debt + s.short = s.otherD + s.booked := by
   have hi := run_inv hw ops _ (init_inv e a b r hs) hops
@@ -335,7 +429,7 @@ theorem close_custody_accounted (e : Env) (hw : WfEnv e) (a : Auc) (b : Bank) (r
 
 /-- `_partial`: nothing unaccounted stays in (or leaves) custody, PROVIDED no reserve shortfall was skipped -/
 theorem close_distributes_all_partial (e : Env) (hw : WfEnv e) (a : Auc) (b : Bank) (r : Option Int) (hs : Start e a)
-    (ops : List Op) (hops : ∀ op ∈ ops, WfOp op) (hc : (run e (initSt e a b r) ops).auc = none)
+    (ops : List Op) (hops : ∀ op ∈ ops, WfOp e op) (hc : (run e (initSt e a b r) ops).auc = none)
     (hshort : (run e (initSt e a b r) ops).short = 0) :
     let s := run e (initSt e a b r) ops
     s.bank.get .auction .coll = s.otherC ∧ s.bank.get .auction .debt = s.otherD + s.booked := by
@@ -344,11 +438,119 @@ theorem close_distributes_all_partial (e : Env) (hw : WfEnv e) (a : Auc) (b : Ba
   rw [hshort] at this
   exact ⟨this.1, by omega⟩
 
+/-! ### every reachable state: the price band, and the iterator under emergency shutdown -/
+
+/-- **The posted price stays between the start price and the end price (minus the proved slack) in EVERY reachable state** of a
+second-generation auction of any initiator kind: after any sequence of market bids, limit fills, reserve top-ups, limit deposits,
+ordinary blocks (price update inside the window, restart after it) and blocks under emergency shutdown of the app (`tickEsm`:
+price update inside the window; past its end `TriggerEsm` for a vault-initiated auction, NOTHING for a lend- / externally initiated
+one).  Hypotheses: the activator posted the start price, block times do not run backwards, oracle prices are unsigned.
+The band of the record: `price ≤ start` and `(price + 1)·tau ≥ end·tau − (start − end)` with `end`, `tau` recomputed from the
+record's start price as the code does — exactly what the driver evaluates on every REAL record after every REAL block
+(`price_in_range`, `price_in_range_slack`).  An iterator that keeps updating past the end of the window (seeded change s81: a
+non-vault auction under shutdown) leaves this band after `tau − T` more seconds. -/
+theorem price_in_band_every_reachable_state (e : Env) (hw : WfEnv e) (a : Auc) (b : Bank) (r : Option Int) (hs : Start e a)
+    (hp : a.price = a.init) (t0 : Int) (ht0 : a.start ≤ t0) (ops : List Op) (hc : Chrono t0 ops)
+    (a' : Auc) (h : (run e (initSt e a b r) ops).auc = some a') :
+    (a'.price : Int) ≤ a'.init ∧ monBand e a' = true ∧
+    ∀ endP t, DutchPrice.endPrice a'.init e.discount = .ok endP → DutchPrice.tau a'.init endP e.T = .ok t →
+      (endP : Int) * t - (a'.init - endP) ≤ (a'.price + 1) * t := by
+  have h0 : BandInv e (initSt e a b r) t0 := by
+    intro a'' ha''
+    simp only [initSt, Option.some.injEq] at ha''
+    subst ha''
+    exact ⟨band_at_start hw hs.init_nonneg hp hs.window, ht0⟩
+  obtain ⟨hb, _⟩ := run_band hw ops _ t0 h0 hc a' h
+  exact ⟨hb.le_start, monBand_of_band hb, hb.ge_end⟩
+
+/-- non-vacuity: a lend-initiated auction, shutdown switched on, blocks inside the window, at its end and far past it: the record
+is updated twice and then frozen at the last posted price -/
+def bandEnv : Env := { kind := .lend, target := 1000, coll0 := 1000, T := 3600, premium := 1200000000000000000, discount := 700000000000000000 }
+def bandAuc : Auc := { coll := 1000, debt := 1000, bonus := 0, price := 2400000000000000000000000, init := 2400000000000000000000000,
+                       orc := 2000000000000000000000000, ord := 1000000000000000000000000, start := 0, end_ := 3600 }
+def bandOps : List Op := [.tickEsm 1800 2000000 true 1000000 true [], .tickEsm 3600 2000000 true 1000000 true [],
+                          .tickEsm 5400 2000000 true 1000000 true [], .tickEsm 20000 2000000 true 1000000 true []]
+
+example : Chrono 0 bandOps ∧ bandAuc.price = bandAuc.init ∧
+    ((run bandEnv (initSt bandEnv bandAuc [] none) bandOps).auc.map fun x => (x.price, x.start)) = some (1680000000000000000000000, 0) := by
+  refine ⟨by simp [Chrono, bandOps], rfl, by decide⟩
+
+/-- **emergency shutdown, lend- / externally initiated auction, window over: nothing happens** — no price update, no restart, no
+money moves (auctions.go:160-173: only a vault-initiated auction is handed to `TriggerEsm`) -/
+theorem esm_leaves_nonvault_auction_untouched_past_end (e : Env) (s : St) (a : Auc) (now twaC twaD : Int) (actC actD : Bool)
+    (hk : e.kind ≠ .vault) (ha : s.auc = some a) (hn : now > a.end_) : tickIterEsm e s now twaC actC twaD actD = s :=
+  tickIterEsm_nonvault_past_end hk ha hn
+
+/-- **what `TriggerEsm` moves** (vault-initiated auction under shutdown, window over): exactly what the auction has collected so
+far, `target − remaining debt`, leaves the module account — burned or sent to the collector; no collateral moves and the auction
+record stays as it is (so the next block does it again: `esm_trigger_repeats_counterexample`) -/
+theorem trigger_esm_moves (e : Env) (s s' : St) (a : Auc) (h : triggerEsm e s a = .ok s') :
+    s'.auc = s.auc ∧ 0 ≤ e.target - a.debt ∧
+    s'.bank.get .auction .debt = s.bank.get .auction .debt - (e.target - a.debt) ∧
+    (s'.burned - s.burned) + (s'.bank.get .collector .debt - s.bank.get .collector .debt) = e.target - a.debt ∧
+    (∀ x, s'.bank.get x .coll = s.bank.get x .coll) ∧ s'.esmOut = s.esmOut + (e.target - a.debt) ∧
+    s'.paid = s.paid ∧ s'.recv = s.recv := triggerEsm_ok h
+
+/-! ### the debt-side ledger that holds for EVERY history (several limit bids at one premium included) -/
+
+theorem init_invW (e : Env) (a : Auc) (b : Bank) (r : Option Int) (hs : Start e a) : InvW e (initSt e a b r) := by
+  refine ⟨by simp [initSt], by simp [initSt], by simp [initSt], by simp [initSt], by simp [initSt], ?_, ?_⟩
+  · intro a' ha'
+    simp only [initSt, Option.some.injEq] at ha'
+    subst ha'
+    refine ⟨rfl, ⟨?_, ?_, ?_, hs.price_nonneg, hs.init_nonneg, hs.window⟩, ?_⟩
+    · simp only [initSt]; rw [hs.debt]; omega
+    · rw [hs.debt]; exact hs.target_nonneg
+    · rw [hs.bonus]; exact hs.bonus_nonneg
+    · simp only [initSt]
+  · intro hn; simp [initSt] at hn
+
+/-- **custody of the debt side, for every history** — no hypothesis on the limit bids or the initiator: any number of bidders may
+wait at one premium (D7), the collateral may be exhausted by a limit fill (D24), the reserve may be short (D23), the app may be
+under emergency shutdown (`TriggerEsm` may run any number of times, D35).  While the auction is open, what the bidders paid is in
+the module account except for what `TriggerEsm` sent away (`esmOut`); once it is closed the module account holds, beyond what is
+not this auction's and the booked fees, exactly `paid + need − target ≥ 0`: what was collected (and asked from the reserve) beyond
+the target — 0 under the hypotheses of `close_custody_accounted`, the second collection of D7 otherwise — minus the reserve draw
+that was silently skipped (`short ≤ need`) and minus `esmOut`. -/
+theorem debt_custody_every_history (e : Env) (hw : WfEnv e) (a : Auc) (b : Bank) (r : Option Int) (hs : Start e a)
+    (ops : List Op) (hops : ∀ op ∈ ops, WfOpW e op) :
+    let s := run e (initSt e a b r) ops
+    0 ≤ s.paid ∧ 0 ≤ s.short ∧ s.short ≤ s.need ∧ 0 ≤ s.booked ∧ 0 ≤ s.esmOut ∧
+    (∀ a', s.auc = some a' → s.need = 0 ∧ e.target ≤ s.paid + a'.debt ∧
+        s.bank.get .auction .debt + s.short + s.esmOut = s.otherD + s.booked + s.paid) ∧
+    (s.auc = none → e.target ≤ s.paid + s.need ∧
+        s.bank.get .auction .debt + s.short + s.esmOut = s.otherD + s.booked + (s.paid + s.need - e.target)) := by
+  have hi := run_w hw ops _ (init_invW e a b r hs) hops
+  simp only
+  refine ⟨hi.paid_nonneg, hi.short_nonneg, hi.short_le, hi.booked_nonneg, hi.esm_nonneg, ?_, ?_⟩
+  · intro a' ha'
+    obtain ⟨o1, o2, o3⟩ := hi.open_ a' ha'
+    exact ⟨o1, o2.cover, o3⟩
+  · intro hn
+    obtain ⟨c1, c2⟩ := hi.closed hn
+    exact ⟨c1, by omega⟩
+
 /-! ### concrete witnesses (replayed on the real keepers by the harness, first sequences of the run) -/
 
 def wEnv : Env := { kind := .vault, decC := 1000000, decD := 1000000, target := 1120000, fee := 120000, bonus0 := 0, coll0 := 1000000, isKeeper := true, incentive := 100000000000000000, minUsd := 100000, T := 3600, premium := 1200000000000000000, discount := 700000000000000000, cmst := true }
 
 def wAuc (price orc : Dec) : Auc := { coll := 1000000, debt := 1120000, bonus := 0, price := price, init := price, orc := orc, ord := 1000000000000000000000000, start := 0, end_ := 3600 }
+
+/-- non-vacuity of the three branch theorems: a keeper-initiated vault position, an external one and a lend one (penalty 50 000,
+reserve interest 700) are each closed by one market bid -/
+def xEnv : Env := { wEnv with kind := .external, isKeeper := false, incentive := 0 }
+def lEnv : Env := { wEnv with kind := .lend, isKeeper := false, lendPen := 50000, lendInt := 700 }
+def cBank : Bank := [((.auction, .coll), 1000000), ((.bidder 1, .debt), 10000000)]
+
+def cClose (e : Env) : St := run e (initSt e (wAuc 1680000000000000000000000 1400000000000000000000000) cBank none) [.bid 1 5000000 1000000]
+
+example :
+    (cClose wEnv).auc = none ∧ (cClose wEnv).burned = 1000000 ∧ (cClose wEnv).bank.get .keeper .debt = 12000 ∧
+    (cClose wEnv).bank.get .collector .debt = 108000 ∧ (cClose wEnv).netFees = 108000 ∧ (cClose wEnv).bank.get .auction .debt = 0 ∧
+    (cClose xEnv).auc = none ∧ (cClose xEnv).bank.get .initiator .debt = 1000000 ∧ (cClose xEnv).booked = 120000 ∧
+    (cClose xEnv).extFees = 120000 ∧ (cClose xEnv).burned = 0 ∧ (cClose xEnv).bank.get .auction .debt = 120000 ∧
+    (cClose lEnv).auc = none ∧ (cClose lEnv).bank.get .pool .debt = 1069300 ∧ (cClose lEnv).bank.get .lendres .debt = 50700 ∧
+    (cClose lEnv).burned = 0 ∧ (cClose lEnv).booked = 0 ∧ (cClose lEnv).bank.get .auction .debt = 0 := by decide
 
 /-- D7: two limit bidders (400 000 each) wait at premium 9; a second seized position of the same pair shares the module account -/
 def d7Bank : Bank := [((.auction, .coll), 2000000), ((.bidder 1, .debt), 10000000), ((.bidder 2, .debt), 10000000), ((.bidder 4, .debt), 10000000)]
@@ -361,6 +563,37 @@ theorem bidders_pay_le_target_counterexample : d7Final.paid = 1520000 ∧ wEnv.t
 
 /-- … and 1 199 683 units of collateral handed out of 1 000 000 seized (the rest comes from the other position's custody) -/
 theorem bidders_receive_le_collateral_counterexample : d7Final.recv = 1199683 ∧ wEnv.coll0 = 1000000 := by decide
+
+/-- the D7 run satisfies the all-history ledger: after the close the module still holds the 400 000 it collected twice -/
+example : (∀ op ∈ d7Ops, WfOpW wEnv op) ∧ d7Final.paid + d7Final.need - wEnv.target = 400000 ∧
+    d7Final.bank.get .auction .debt = d7Final.otherD + 400000 := by
+  refine ⟨?_, by decide, by decide⟩
+  intro op hop
+  simp only [d7Ops, List.mem_cons, List.mem_nil_iff, or_false] at hop
+  rcases hop with h | h | h | h <;> subst h <;> simp [WfOpW]
+
+/-- emergency shutdown, vault-initiated auction (corpus 4): b1 has paid 100 000, a stranger's limit deposit of 250 000 sits in the
+module account; the window is over -/
+def esmBank : Bank := [((.auction, .coll), 1000000), ((.bidder 1, .debt), 10000000), ((.bidder 4, .debt), 10000000)]
+def esmOps : List Op := [.bid 1 100000 1000000, .limit 4 30 250000, .tickEsm 3660 1400000 true 1000000 true [(30, 4, 250000)],
+  .tickEsm 3720 1400000 true 1000000 true [(30, 4, 250000)], .tickEsm 3780 1400000 true 1000000 true [(30, 4, 250000)],
+  .tickEsm 3840 1400000 true 1000000 true [(30, 4, 250000)]]
+def esmFinal : St := run wEnv (initSt wEnv (wAuc 1680000000000000000000000 1400000000000000000000000) esmBank none) esmOps
+
+/-- **`TriggerEsm` repeats** (auctions.go:160-173, 487-533): it forwards what the auction collected but deletes neither the auction
+nor the locked vault, so every further block under shutdown forwards the same 100 000 again — here three times, 200 000 of it out
+of the stranger's deposit (50 000 left of 250 000; the fourth transfer fails); the auction is still open, its collateral still in
+the module account. -/
+theorem esm_trigger_repeats_counterexample :
+    esmFinal.paid = 100000 ∧ esmFinal.esmOut = 300000 ∧ esmFinal.bank.get .collector .debt = 300000 ∧
+    esmFinal.otherD = 250000 ∧ esmFinal.bank.get .auction .debt = 50000 ∧ esmFinal.auc.isSome = true ∧
+    esmFinal.bank.get .auction .coll = 1000000 - esmFinal.recv := by decide
+
+/-- the shutdown witness above is one of these histories: 100 000 paid, 300 000 sent away by `TriggerEsm` -/
+example : (∀ op ∈ esmOps, WfOpW wEnv op) := by
+  intro op hop
+  simp only [esmOps, List.mem_cons, List.mem_nil_iff, or_false] at hop
+  rcases hop with h | h | h | h | h | h <;> subst h <;> simp [WfOpW]
 
 /-- reserve shortfall: collateral worth less than the remaining target, reserve record = 10, a stranger's limit deposit of
 700 000 sits in the module account -/
@@ -599,5 +832,82 @@ the 5 % bonus pot that was seized for them — 130 802 units — stays in the au
 theorem l1_close_custody_counterexample :
     l1Final.auc = none ∧ l1Final.paid = 30434782 ∧ l1Final.bank.get .owner .coll = 2616032 ∧
     l1Final.bank.get .auction .coll = 130802 ∧ l1Final.otherC = 0 := by decide
+
+/-! ### first-generation lend auctions: the lend-side book-keeping of the close (`Model/DutchV1LendBook.lean`) -/
+
+section LendBook
+open Comdex.DutchV1LendBook
+
+/-- **`close_distributes_all` for first-generation lend auctions, pool and lend module accounts included.**  The bid that closes the
+auction (target reached, or collateral sold out with the reserve paying the rest) does, and only does, the following.
+
+*Debt denomination.*  The bidder pays `p.inAmt`; nothing of it rests in the auction module (`Inv`: module debt balance = what is
+not this auction's).  The pool receives it, plus `req` from the reserve when the collateral was sold out below the target
+(`req = target − collected`, else 0), minus the reserve's share of the borrow's interest `⌊ReservePoolInterest⌋`, which goes to the
+lend module: pool and reserve TOGETHER gain exactly what the bidder paid.
+
+*Collateral.*  The bidder gets slice + bonus, the borrower the unsold rest (`coll0 − sold`); the pool loses exactly what a
+re-liquidation hands to the auction module for the follow-up auction (`cp.redep`, booked as not this auction's) plus that
+re-liquidation's penalty `cp.pen2`, which the reserve gains.  In the auction module stays, of this auction, exactly the unpaid part of
+the bonus pot (`Inv.closed` — the stranded remainder of D32, `l1_close_custody_counterexample`).
+
+*Records.*  cTokens of the debt asset minted to the pool: `⌊InterestAccumulated − ReservePoolInterest⌋`; and one of five outcomes for
+locked vault / borrow / collateral cTokens (`Outcome`): repaid in full (records deleted, the cTokens `AmountIn` returned to the
+borrower), no collateral left (records deleted), healthy again (borrow restored with `AmountIn`, `AmountOut − target`), still
+unhealthy (liquidated again: `deduction` cTokens burned and taken off the locked vault), or stuck (a price went inactive). -/
+theorem l1_close_distributes_all (e : DutchV1Lend.Env) (r : Rates) (s s' : BSt) (who : Nat) (slice : Int) (x : Ext) (a : DutchV1Lend.Auc)
+    (hb : (0 : Int) ≤ e.bonus) (hi : DutchV1Lend.Inv e s.s) (ha : s.s.auc = some a)
+    (h : DutchV1LendBook.bidE e r s who slice x = .ok s') (hc : s'.s.auc = none) :
+    ∃ p cp lv0 req, DutchV1Lend.plan e a slice = .ok p ∧ closeBook e r s.k x = .ok cp ∧ s.k.lv = some lv0 ∧ Outcome e s.k lv0 cp ∧
+      -- debt
+      s'.s.bank.get .auction .debt = s'.s.otherD ∧ s'.s.otherD = s.s.otherD ∧
+      s'.s.bank.get (.bidder who) .debt = s.s.bank.get (.bidder who) .debt - p.inAmt ∧
+      0 ≤ req ∧ (a.inCur + p.inAmt ≥ e.target → req = 0) ∧ (a.inCur + p.inAmt < e.target → req = e.target - (a.inCur + p.inAmt)) ∧
+      s'.s.bank.get .pool .debt = s.s.bank.get .pool .debt + p.inAmt + req - riOf s.k ∧
+      s'.s.bank.get .lendres .debt = s.s.bank.get .lendres .debt - req + riOf s.k ∧
+      -- collateral
+      s'.s.bank.get .owner .coll - s.s.bank.get .owner .coll = e.coll0 - (s'.s.recv - s'.s.bonusPaid) ∧
+      s'.s.bank.get .pool .coll = s.s.bank.get .pool .coll - cp.redep - cp.pen2 ∧
+      s'.s.bank.get .lendres .coll = s.s.bank.get .lendres .coll + cp.pen2 ∧
+      s'.s.bank.get .auction .coll = s.s.otherC + cp.redep + (e.deposit - e.coll0 - s'.s.bonusPaid) ∧
+      -- records
+      s'.k.lv = cp.k.lv ∧ s'.k.borrow = cp.k.borrow ∧ s'.k.liquidated = cp.k.liquidated ∧
+      s'.k.cPoolDebt = s.k.cPoolDebt + mintOf s.k ∧ s'.k.cPoolColl = cp.k.cPoolColl ∧ s'.k.cOwnerColl = cp.k.cOwnerColl := by
+  obtain ⟨p, cp, lv0, h1, h2, h3, h4, h5, _, hoD, ⟨req, q1, q2, q3, q4, q5, _⟩, h8, h9, h10, h11, h12, h13, h14, h15, h16, _, h18, h19⟩ :=
+    DutchV1LendBook.bidE_close hb hi ha h hc
+  obtain ⟨_, _, c3⟩ := h5.closed hc
+  refine ⟨p, cp, lv0, req, h1, h2, h3, h4, h5.debt_custody, hoD, ?_, q1, q2, q3, q4, q5, h19, h8, h9, ?_, h11, h12, h13, h14, h15, h16⟩
+  · have := h18 who; simpa using this
+  · rw [c3, h10]
+
+/-- non-vacuity: the three outcomes that move anything, on the borrow of the D32 witness with a year of interest (570 809.03 accrued,
+114 161.80 of it the reserve's): (1) healthy again — the reserve gets 114 161, 456 647 cTokens are minted, the borrow is restored
+with 39 565 218 owed; (2) a smaller debt is repaid in full — 62 801 933 cTokens go back to the borrower; (3) the collateral price
+has halved — liquidated again: 206 483 951 collateral to the auction module, 9 832 569 to the reserve -/
+def lbRates : Rates := { ltv := 700000000000000000, pen := 50000000000000000, thr := 750000000000000000 }
+def lbLv : LV := { amtIn := 62801933, amtOut := 70000000, updOut := 70570809 }
+def lbBook : Book := { lv := some lbLv, borrow := some (62801933, 70000000), intAcc := 570809034907615000000000, resInt := 114161806981523000000000, cPoolDebt := 10100000000, cPoolColl := 11062801933, cOwnerColl := 2900000000 }
+def lbBank : Bank := [((.auction, .coll), 35507246), ((.bidder 1, .debt), 100000000), ((.bidder 2, .debt), 100000000),
+  ((.pool, .coll), 13000000000), ((.pool, .debt), 20000000000), ((.lendres, .debt), 500)]
+def lbX (twaC : Int) : Ext := { twaC := twaC, actC := true, twaD := 2000000, actD := true }
+def lbRun (k : Book) (twaC : Int) : BSt := DutchV1LendBook.run l1Env lbRates { s := DutchV1Lend.initSt l1Env l1Auc lbBank, k := k }
+  [.bid 1 1000000 (lbX 1800000), .tick 1200 1800000 true 2000000 true, .bid 2 32816425 (lbX twaC)]
+
+example :
+    (lbRun lbBook 1800000).s.auc = none ∧ (lbRun lbBook 1800000).k.lv = none ∧ (lbRun lbBook 1800000).k.borrow = some (62801933, 39565218) ∧
+    (lbRun lbBook 1800000).k.cPoolDebt = 10100456647 ∧ (lbRun lbBook 1800000).s.bank.get .lendres .debt = 114661 ∧
+    (lbRun lbBook 1800000).s.bank.get .pool .debt = 20030320621 ∧ (lbRun lbBook 1800000).s.bank.get .auction .coll = 130802 := by decide
+
+example :
+    let k2 : Book := { lbBook with lv := some { lbLv with amtOut := 30434782, updOut := 30434782 }, borrow := some (62801933, 30434782) }
+    (lbRun k2 1800000).s.auc = none ∧ (lbRun k2 1800000).k.lv = none ∧ (lbRun k2 1800000).k.borrow = none ∧
+    (lbRun k2 1800000).k.cOwnerColl = 2962801933 ∧ (lbRun k2 1800000).k.cPoolColl = 11000000000 := by decide
+
+example :
+    (lbRun lbBook 900000).s.auc = none ∧ (lbRun lbBook 900000).k.lv = some { amtIn := 0, amtOut := 39565218, updOut := 40136027 } ∧
+    (lbRun lbBook 900000).k.redep = 206483951 ∧ (lbRun lbBook 900000).k.pen2 = 9832569 ∧ (lbRun lbBook 900000).s.otherC = 206483951 ∧
+    (lbRun lbBook 900000).s.bank.get .pool .coll = 12783683480 ∧ (lbRun lbBook 900000).s.bank.get .lendres .coll = 9832569 := by decide
+
+end LendBook
 
 end Comdex.C10
